@@ -84,3 +84,18 @@ FUNCTIONS = {
     "dec_W": gate("3-13x3-3-11-1-1-5-1 decomposition", "q_3_13x3_3_11_1_1_5_1", spec_msg_word,
                   "plain recomposition of limbs (3,13,13,13,3,11,1,1,5,1) and a boolean constraint on EACH of the three 1-bit limbs"),
 }
+
+
+def spec_add_mod(loc):
+    """sum of the summand cells = result + 2^64 * carry (one linear constraint; the range of carry and result is
+    enforced by lookups elsewhere)"""
+    names = [n for n in ("s0", "s1", "s2", "s3", "s4", "s5", "s6", "s7", "s8", "s9") if n in loc]
+    if len(names) < 2:
+        from polyvc import Unsupported
+        raise Unsupported("add-mod gate no longer binds summand cells s0..")
+    summands = need(loc, names)
+    carry, result = need(loc, ["carry", "result"])
+    return [sum(summands) - (result + carry * 2**64)]
+
+
+FUNCTIONS["add_mod"] = gate("add mod 2^64", "q_add_mod_2_64", spec_add_mod, "sum of all summand cells = result + 2^64 carry")
